@@ -13,6 +13,7 @@
 #include <pthread.h>
 #include <stdio.h>
 #include <stdlib.h>
+#include <time.h>
 #include <unistd.h>
 
 static struct {
@@ -140,6 +141,17 @@ static void *watchdog(void *arg)
 				printf("HANGSIG runaway-after-condition\n");
 				fflush(stdout);
 				_exit(3);
+			}
+		}
+		/* wall-clock backstop inside the engine (90 s; a normal case takes 0.1-5 s): no verdict */
+		{
+			static time_t t_start;
+			if(!t_start)
+				t_start = time(NULL);
+			if(time(NULL) - t_start > 90) {
+				printf("STAT event_budget_exceeded 1\nBUDGET-EXCEEDED wall clock, %llu forward executions, %llu GVT values consumed\n", vh_counter_total(VC_FWD), vh_counter_total(VC_GVT_ROUNDS));
+				fflush(stdout);
+				_exit(5);
 			}
 		}
 		/* pure event budget: optimism is unbounded in the core and an adversarial schedule can make it thrash (observed: 2.4M executions for a
